@@ -214,4 +214,17 @@ theorem response_parses_as_itself :
 example : serialize [List.replicate 16 7, [1, 2, 3], be32 42] =
     List.replicate 16 7 ++ [1, 2, 3, 0, 0, 0, 42] := by decide
 
+
+/-- **signed_messages_of_two_request_kinds_overlap** (negative; an observation about the protocol, outside C06 and C16 as
+stated): each signed layout is injective on its own, but the message spaces of different requests are not disjoint. The
+21 bytes of `"get subscription info"` — what `get_subscription_info` signs — are also `Appointment::to_vec()` of the
+appointment with locator `"get subscription"`, the one-byte blob `" "` and `to_self_delay = 0x696e666f`: a signature
+captured from a read request is a valid `add_appointment` signature for that (useless, slot-consuming) appointment.
+There is no domain separation between request kinds. -/
+theorem signed_messages_of_two_request_kinds_overlap :
+    let msg : List Nat := [103, 101, 116, 32, 115, 117, 98, 115, 99, 114, 105, 112, 116, 105, 111, 110, 32, 105, 110, 102, 111]
+    ∃ loc blob tsd, loc.length = 16 ∧ tsd < 2 ^ 32 ∧ serialize [loc, blob, be32 tsd] = msg :=
+  ⟨[103, 101, 116, 32, 115, 117, 98, 115, 99, 114, 105, 112, 116, 105, 111, 110], [32], 1768842863,
+    by decide, by decide, by decide⟩
+
 end Teos.C16
